@@ -8,11 +8,11 @@ from ..gen import docs as gdocs
 
 FOCUS_SETS = [
     None, None, None,
-    ['word', 'usermac', 'usermac2', 'usermacopt', 'usermacoptonly', 'defmac', 'defbymac', 'twice_ext', 'verb', 'atom', 'comment', 'footnote'],
+    ['word', 'usermac', 'usermac2', 'usermacopt', 'usermacoptonly', 'usermacml', 'label', 'defmac', 'defbymac', 'twice_ext', 'verb', 'atom', 'comment', 'footnote'],
     ['word', 'itemize', 'enumerate', 'itemlab', 'section', 'usersec', 'proof', 'theorem', 'label', 'comment', 'par'],
     ['word', 'inline', 'display', 'mathtext', 'ref', 'cite', 'citeopt', 'footnote', 'usermac'],
     ['word', 'verb', 'verbatim', 'comment', 'skip', 'ltskip', 'label', 'vanish', 'unk', 'atom', 'accent'],
-    ['word', 'footnote', 'caption', 'footcite', 'textcolor', 'unkarg', 'unkenv', 'figure', 'tabular', 'usermac2'],
+    ['word', 'footnote', 'caption', 'footcite', 'tikzin', 'textcolor', 'unkarg', 'unkenv', 'figure', 'tabular', 'usermac2'],
     ['word', 'gls', 'glsentry', 'cref', 'usermacopt', 'usermacoptonly', 'latexname', 'textbackslash', 'ref', 'cite', 'theorem', 'proof', 'enumerate'],
     ['word', 'tikz', 'lstlisting', 'removed_ext', 'skip', 'comment', 'minipage', 'par', 'newline', 'quad', 'hspace'],
     ['word', 'atom', 'accent', 'group', 'emph', 'unkarg2', 'href', 'url', 'texorpdf', 'framebox', 'ltadd', 'ltalter'],
